@@ -1,4 +1,5 @@
 import Feox.Kv.Shapes
+import Feox.Kv.Tiers
 /-!
 # C01 — sequential calls match a last-writer-wins map
 
@@ -147,5 +148,27 @@ example : (run {} [.insert [1] [10] (some 50) 0 false 0 1, .insert [1] [11] (som
     .get [1] 3, .delete [1] (some 50) 0 4, .delete [1] (some 51) 0 5, .get [1] 6]).2 =
     [.okBool true, .err .OlderTimestamp, .okBytes [10], .err .OlderTimestamp, .okUnit, .err .KeyNotFound] := by
   decide
+
+/-! ### "… on every tier"
+
+The reference map above is flat.  `Feox.Kv.Tiers` models where the real store keeps a generation's
+bytes (resident, device extent, cache entry tagged with the generation) and the moves it makes
+behind the caller's back. -/
+
+/-- **Where a value lives is invisible**: after any run from the empty store — API calls
+interleaved in any order with write-out, offload, cache fill, cache eviction and retirement, each
+taken in a state where the real code can take it — a read returns what the plain map replayed over
+the API calls alone holds for the key -/
+theorem tiers_invisible (l : List Tiers.Step) (hr : Tiers.Run Tiers.init l) (k : Tiers.Key) :
+    Tiers.read (Tiers.runFrom Tiers.init l) k =
+      match Tiers.specAfter l k with | none => .notFound | some v => .value v :=
+  Tiers.read_after_run l hr k
+
+/-- in every reachable state the read path finds the indexed generation's value in whichever tier
+holds it, and never trips over the identity check -/
+theorem reads_from_any_tier (l : List Tiers.Step) (hr : Tiers.Run Tiers.init l) (k : Tiers.Key) :
+    Tiers.read (Tiers.runFrom Tiers.init l) k ≠ .stale := by
+  rw [Tiers.read_after_run l hr k]
+  cases Tiers.specAfter l k <;> simp
 
 end Feox.C01
